@@ -617,8 +617,36 @@ End Procs.
 
 (* ---- procedures of the repaired variant --------------------------------------------------- *)
 
+(* the input classes of the crash / leak defects, as conditions on the description and the roster *)
+Definition all_keys (ro : roster) : bool := forallb m_key (ro_list ro).
+Definition benign_mk (fx : fixes) (tm : tmarshal) (ro : roster) : Prop :=
+  (f06 fx = true \/ tm_children tm <> []) /\ (f70 fx = true \/ all_keys ro = true).
+
+Lemma ro_find_key : forall ro srv m, all_keys ro = true -> ro_find ro srv = Some m -> m_key m = true.
+Proof.
+  intros ro srv m Hk Hf. unfold ro_find in Hf. apply find_some in Hf as [Hin _].
+  unfold all_keys in Hk. rewrite forallb_forall in Hk. apply Hk, Hin.
+Qed.
+
+Lemma miter_returns_in : forall A X (f : A -> M unit) (P : mst -> Prop) l m,
+  P m ->
+  (forall x m1, In x l -> P m1 -> returns X (f x) m1 (fun _ m2 => P m2)) ->
+  returns X (miter f l) m (fun _ m' => P m').
+Proof.
+  intros A X f P l. induction l as [|x r IH]; intros m Pm Hf; cbn [miter].
+  - eapply returns_weaken; [apply ret_returns|]. intros a m' _ (_ & ->). exact Pm.
+  - eapply bind_returns; [apply Hf; [left; reflexivity|exact Pm]|]. intros [] m1 _ P1. apply IH; [exact P1|].
+    intros y m2 Hy. apply Hf. right. exact Hy.
+Qed.
+
 Section Fixed.
 Variable X : nat -> Prop.
+(* the procedures for any variant that has the repairs F26, F71, F72; the crash / leak
+   repairs F05 F06 F07 F08 F70 may be missing: their input classes are hypotheses *)
+Variable fx : fixes.
+Hypothesis H26 : f26 fx = true.
+Hypothesis H71 : f71 fx = true.
+Hypothesis H72 : f72 fx = true.
 
 Ltac hf := let a := fresh in let m := fresh in let H := fresh in
            intros a m H; cbn [os held evs]; tauto.
@@ -645,7 +673,7 @@ Qed.
 (* requestTree: the message is parked; a peer that has not been asked for the tree is asked *)
 Lemma request_tree_returns : forall pm m,
   ready [] m ->
-  returns X (request_tree all_fixed pm) m
+  returns X (request_tree fx pm) m
           (fun _ m' =>
              In pm (parked (os m')) /\
              (reachable (p_peer pm) = true ->
@@ -676,7 +704,7 @@ Proof.
   rewrite Hs1.
   destruct (lookup id (store (os m))) as [[asked|t]|] eqn:El.
   - (* requested before *)
-    cbn [f71 all_fixed].
+    rewrite H71.
     destruct (mem_nat p asked) eqn:Ea.
     { eapply returns_weaken; [apply ret_returns|]. intros a m' _ (_ & ->). rewrite Ho2. split; [exact Hp1|].
       intros _ [E|(asked0 & E & E')]; [discriminate|]. inversion E; subst asked0. congruence. }
@@ -712,7 +740,7 @@ Proof.
     { rewrite Ho3, Ho2, Hs1, El. cbn [set_store store]. rewrite lookup_update, Nat.eqb_refl. reflexivity. }
     assert (Hp3 : In pm (parked (os m3))).
     { rewrite Ho3, Ho2. destruct (lookup id (store (os m1))); cbn [set_store parked]; exact Hp1. }
-    cbn [f71 all_fixed].
+    rewrite H71.
     eapply bind_returns.
     { unfold st_note_asked. eapply with_store_returns; [exact C3|rewrite H3; reflexivity|reflexivity|apply sfo_note_asked]. }
     intros [] m4 X4 (_ & Ho4).
@@ -743,8 +771,8 @@ Definition will_deliver (s : ostate) (t : stree) (pm : pmsg) (f : token) : Prop 
   deliverable t (p_peer pm) (p_from pm) (p_body pm) f.
 
 Lemma transmit_returns : forall sender from to b m,
-  ready [] m ->
-  returns X (transmit all_fixed sender from to b) m
+  ready [] m -> (to = None -> f05 fx = true) ->
+  returns X (transmit fx sender from to b) m
           (fun _ m' =>
              forall k, to = Some k ->
                (forall t f, lookup (tk_tree k) (store (os m)) = Some (Have t) ->
@@ -758,9 +786,9 @@ Lemma transmit_returns : forall sender from to b m,
                  In (ESend sender (RReqTree (tk_tree k))) (evs m') /\
                  exists asked', lookup (tk_tree k) (store (os m')) = Some (Req asked')))).
 Proof.
-  intros sender from to b m R. pose proof R as (C & Hh & Hi). unfold transmit.
+  intros sender from to b m R Hto. pose proof R as (C & Hh & Hi). unfold transmit.
   destruct to as [k|].
-  2:{ cbn [f05 all_fixed]. eapply returns_weaken; [apply ret_returns|]. intros a m' _ _ k E. discriminate. }
+  2:{ rewrite (Hto eq_refl). eapply returns_weaken; [apply ret_returns|]. intros a m' _ _ k E. discriminate. }
   eapply bind_returns; [apply st_get_refresh_returns; [exact C|rewrite Hh; reflexivity]|].
   intros e m1 X1 (-> & Ho1).
   assert (R1 : ready [] m1) by (eapply ready_ext; eassumption).
@@ -787,7 +815,7 @@ Qed.
 (* the flush goroutine *)
 Lemma flush_returns : forall t m,
   ready [] m ->
-  returns X (flush all_fixed t) m
+  returns X (flush fx t) m
           (fun _ m' =>
              forall pm f,
                filter (fun pm => tk_tree (p_to pm) =? t_id t) (parked (os m)) = [pm] ->
@@ -813,7 +841,7 @@ Proof.
   remember (filter (fun pm => tk_tree (p_to pm) =? t_id t) (parked (os m))) as mine eqn:Em.
   destruct mine as [|pm0 [|pm1 rest]].
   - eapply returns_weaken; [apply ret_returns|]. intros a m' _ _ pm f E. discriminate.
-  - cbn [miter]. eapply bind_returns; [apply transmit_returns; exact R1|].
+  - cbn [miter]. eapply bind_returns; [apply transmit_returns; [exact R1|discriminate]|].
     intros [] m2 X2 Hq. eapply returns_weaken; [apply ret_returns|]. intros a m' _ (_ & ->).
     intros pm f E Ht W. inversion E; subst pm0.
     assert (Et : tk_tree (p_to pm) = t_id t).
@@ -826,7 +854,7 @@ Proof.
     + rewrite Ho1. exact W.
   - eapply returns_weaken.
     { apply miter_returns with (P := ready []); [exact R1|].
-      intros pm m2 R2. eapply returns_weaken; [apply transmit_returns; exact R2|].
+      intros pm m2 R2. eapply returns_weaken; [apply transmit_returns; [exact R2|discriminate]|].
       intros a m' Hx _. eapply ready_ext; eassumption. }
     intros a m' _ _ pm f E. discriminate.
 Qed.
@@ -834,7 +862,7 @@ Qed.
 (* RegisterTree, called by a service: the only way the content of a stored tree changes *)
 Lemma register_tree_returns : forall t m,
   ready [] m -> X (t_id t) ->
-  returns X (register_tree all_fixed t) m (fun _ _ => True).
+  returns X (register_tree fx t) m (fun _ _ => True).
 Proof.
   intros t m R Hx. pose proof R as (C & Hh & Hi). unfold register_tree.
   eapply bind_returns.
@@ -849,7 +877,7 @@ Qed.
 (* a tree that came from a peer is stored only where no tree is stored *)
 Lemma store_peer_tree_returns : forall t m,
   clean m -> mem_lk LStore (held m) = false -> insts_have (os m) ->
-  returns X (store_peer_tree all_fixed t) m
+  returns X (store_peer_tree fx t) m
           (fun _ m' =>
              forall pm f,
                (forall t0, lookup (t_id t) (store (os m)) <> Some (Have t0)) ->
@@ -858,7 +886,7 @@ Lemma store_peer_tree_returns : forall t m,
                (~ X (t_id t) -> lookup (t_id t) (store (os m')) = Some (Have t)) /\
                In (EDeliver (p_to pm) (tk_node f)) (evs m')).
 Proof.
-  intros t m C Hn Hi. unfold store_peer_tree. cbn [f72 all_fixed].
+  intros t m C Hn Hi. unfold store_peer_tree. rewrite H72.
   destruct (lookup (t_id t) (store (os m))) as [[asked|t0]|] eqn:El.
   2:{ (* a tree is stored under this id: nothing happens *)
       eapply bind_returns.
@@ -887,34 +915,42 @@ Proof.
     | apply Hq; [rewrite Ho1; exact Hf|exact Hl1|rewrite Ho1; exact W] ].
 Qed.
 
-Lemma make_tree_fixed : forall tm ro,
-  make_tree all_fixed tm ro = MTErr \/
+Lemma make_tree_benign : forall tm ro,
+  benign_mk fx tm ro ->
+  make_tree fx tm ro = MTErr \/
   exists c, tm_children tm = c :: tl (tm_children tm) /\ ro_id ro = tm_roster tm /\
-            make_tree all_fixed tm ro = MTOk (mkTree (tm_tree tm) ro c).
+            make_tree fx tm ro = MTOk (mkTree (tm_tree tm) ro c).
 Proof.
-  intros tm ro. unfold make_tree. cbn [f06 f70 all_fixed].
+  intros tm ro (B6 & B70). unfold make_tree.
   destruct (ro_id ro =? tm_roster tm) eqn:E; cbn [negb]; [|left; reflexivity].
-  destruct (tm_children tm) as [|c r]; [left; reflexivity|].
-  destruct (forallb _ (nodes_of c)); [|left; reflexivity].
-  destruct (forallb _ (nodes_of c)); [|left; reflexivity].
-  right. exists c. apply Nat.eqb_eq in E. auto.
+  destruct (tm_children tm) as [|c r].
+  { destruct B6 as [B6|B6]; [rewrite B6; left; reflexivity|contradiction]. }
+  destruct (forallb _ (nodes_of c)) eqn:Efound; [|left; reflexivity].
+  destruct (forallb (fun n => match ro_find ro (snd n) with Some m => m_key m | None => false end) (nodes_of c)) eqn:Ekeys.
+  - right. exists c. apply Nat.eqb_eq in E. auto.
+  - destruct B70 as [B70|B70]; [rewrite B70; left; reflexivity|]. exfalso.
+    assert (Hall : forallb (fun n => match ro_find ro (snd n) with Some m => m_key m | None => false end) (nodes_of c) = true).
+    { apply forallb_forall. intros n Hn. rewrite forallb_forall in Efound. specialize (Efound n Hn).
+      destruct (ro_find ro (snd n)) as [m|] eqn:Ef; [|discriminate]. eapply ro_find_key; eassumption. }
+    rewrite Hall in Ekeys. discriminate.
 Qed.
 
 (* handleSendTree *)
 Lemma handle_send_tree_returns : forall otm oro m,
   clean m -> mem_lk LStore (held m) = false -> insts_have (os m) ->
-  returns X (handle_send_tree all_fixed otm oro) m
+  (forall tm ro, otm = Some tm -> oro = Some ro -> benign_mk fx tm ro) ->
+  returns X (handle_send_tree fx otm oro) m
           (fun _ m' =>
              forall tm ro t pm f,
                otm = Some tm -> oro = Some ro -> tm_tree tm <> 0 ->
-               make_tree all_fixed tm ro = MTOk t ->
+               make_tree fx tm ro = MTOk t ->
                (exists asked, lookup (t_id t) (store (os m)) = Some (Req asked)) ->
                filter (fun pm => tk_tree (p_to pm) =? t_id t) (parked (os m)) = [pm] ->
                will_deliver (os m) t pm f ->
                (~ X (t_id t) -> lookup (t_id t) (store (os m')) = Some (Have t)) /\
                In (EDeliver (p_to pm) (tk_node f)) (evs m')).
 Proof.
-  intros otm oro m C Hn Hi. unfold handle_send_tree.
+  intros otm oro m C Hn Hi Hb. unfold handle_send_tree.
   destruct otm as [tm|].
   2:{ eapply returns_weaken; [apply ret_returns|]. intros a m' _ _ tm ro t pm f E. discriminate. }
   destruct (tm_tree tm =? 0) eqn:E0.
@@ -930,9 +966,9 @@ Proof.
   destruct (lookup (tm_tree tm) (store (os m))) as [e|] eqn:El.
   2:{ eapply returns_weaken; [apply ret_returns|]. intros a m' _ _ tm' ro' t pm f E1 E2 _ Hm (asked & Ha).
       inversion E1; subst tm'. inversion E2; subst ro'.
-      destruct (make_tree_fixed tm ro) as [Em|(c & _ & _ & Em)]; rewrite Em in Hm; [discriminate|].
+      destruct (make_tree_benign tm ro (Hb _ _ eq_refl eq_refl)) as [Em|(c & _ & _ & Em)]; rewrite Em in Hm; [discriminate|].
       inversion Hm; subst t. cbn [t_id] in Ha. congruence. }
-  destruct (make_tree_fixed tm ro) as [Em|(c & _ & _ & Em)]; rewrite Em.
+  destruct (make_tree_benign tm ro (Hb _ _ eq_refl eq_refl)) as [Em|(c & _ & _ & Em)]; rewrite Em.
   { eapply returns_weaken; [apply ret_returns|]. intros a m' _ _ tm' ro' t pm f E1 E2 _ Hm.
     inversion E1; subst tm'. inversion E2; subst ro'. rewrite Em in Hm. discriminate. }
   eapply returns_weaken; [apply store_peer_tree_returns; assumption|].
@@ -964,43 +1000,51 @@ Qed.
 
 Lemma handle_request_roster_returns : forall p rid nf m,
   clean m -> mem_lk LStore (held m) = false ->
-  returns X (handle_request_roster all_fixed p rid nf) m
+  (f07 fx = true \/ existsb is_req (store (os m)) = false) ->
+  returns X (handle_request_roster fx p rid nf) m
           (fun _ m' =>
              reachable p = true ->
              In (ESend p (RRoster (match find (has_roster rid) (store (os m)) with
                                    | Some (_, Have t) => ro_id (t_roster t) | _ => 0 end))) (evs m')).
 Proof.
-  intros p rid nf m C Hn. unfold handle_request_roster.
+  intros p rid nf m C Hn H7. unfold handle_request_roster.
   eapply bind_returns.
-  { unfold st_get_roster. eapply with_store_returns; [exact C|exact Hn|reflexivity|apply sfo_same]. }
+  { unfold st_get_roster. eapply with_store_returns; [exact C|exact Hn| |apply sfo_same].
+    unfold sf_get_roster. destruct H7 as [H7|H7]; rewrite H7; [reflexivity|].
+    destruct (f07 fx); reflexivity. }
   intros oro m1 X1 (-> & Ho1).
   eapply bind_returns; [apply send_returns|]. intros ok m2 X2 (_ & _ & Hs).
   eapply returns_weaken; [apply ret_returns|]. intros a m' _ (_ & ->) Hr.
   specialize (Hs Hr). destruct (find (has_roster rid) (store (os m))) as [[i [asked|t]]|]; exact Hs.
 Qed.
 
-
 (* the scan of the instance table: every listed instance has its tree *)
 Lemma scan_rosters_returns : forall rid l acc m,
   clean m -> mem_lk LStore (held m) = false ->
   (forall k, In k l -> exists t, lookup (tk_tree k) (store (os m)) = Some (Have t)) ->
-  returns X (scan_rosters rid l acc) m (fun _ m' => os m' = os m).
+  returns X (scan_rosters rid l acc) m
+          (fun r m' => os m' = os m /\
+                       forall ro, r = Some ro ->
+                                  acc = Some ro \/ exists id t, lookup id (store (os m)) = Some (Have t) /\ t_roster t = ro).
 Proof.
   intros rid l. induction l as [|k r IH]; intros acc m C Hn Hl; cbn [scan_rosters].
-  - eapply returns_weaken; [apply ret_returns|]. intros a m' _ (_ & ->). reflexivity.
+  - eapply returns_weaken; [apply ret_returns|]. intros a m' _ (-> & ->). split; [reflexivity|]. intros ro E. left. exact E.
   - eapply bind_returns; [apply st_lookup_returns; assumption|].
     intros e m1 X1 (-> & Ho1). destruct (Hl k (or_introl eq_refl)) as (t & Ht). rewrite Ht.
     eapply returns_weaken.
     { apply IH; [eapply clean_ext; eassumption|rewrite (ext_held _ _ _ X1); exact Hn|].
       intros k' Hk'. rewrite Ho1. apply Hl. right. exact Hk'. }
-    intros a m' _ H. congruence.
+    intros a m' _ (H & Hr). split; [congruence|]. intros ro E. destruct (Hr ro E) as [Ha|(id & t' & Hl' & Ht')].
+    + destruct (ro_id (t_roster t) =? rid); [|left; exact Ha]. inversion Ha; subst ro. right. eauto.
+    + right. exists id, t'. rewrite Ho1 in Hl'. auto.
 Qed.
 
 Lemma handle_send_tree_marshal_returns : forall p tm m,
   ready [] m ->
-  returns X (handle_send_tree_marshal all_fixed p tm) m (fun _ _ => True).
+  (forall id t, lookup id (store (os m)) = Some (Have t) -> benign_mk fx tm (t_roster t)) ->
+  returns X (handle_send_tree_marshal fx p tm) m (fun _ _ => True).
 Proof.
-  intros p tm m R. pose proof R as (C & Hh & Hi). unfold handle_send_tree_marshal.
+  intros p tm m R Hb. pose proof R as (C & Hh & Hi). unfold handle_send_tree_marshal.
   destruct (tm_tree tm =? 0).
   { eapply returns_weaken; [apply ret_returns|auto]. }
   eapply bind_returns; [apply st_lookup_returns; [exact C|rewrite Hh; reflexivity]|].
@@ -1009,9 +1053,12 @@ Proof.
   destruct R1 as (C1 & H1 & I1).
   destruct (lookup (tm_tree tm) (store (os m))).
   2:{ eapply returns_weaken; [apply ret_returns|auto]. }
-  cbn [f26 all_fixed].
+  rewrite H26.
   eapply bind_returns.
-  { apply locked_returns with (Q := fun _ m' => os m' = os m1); [exact C1|rewrite H1; reflexivity|hf|].
+  { apply locked_returns with
+      (Q := fun r m' => os m' = os m1 /\
+                        forall ro, r = Some ro -> exists id t, lookup id (store (os m1)) = Some (Have t) /\ t_roster t = ro);
+      [exact C1|rewrite H1; reflexivity|hf|].
     eapply bind_returns; [apply access_returns; reflexivity|]. intros [] m2 X2 Ho2.
     eapply bind_returns; [apply get_returns|]. intros s m3 X3 (-> & ->).
     eapply returns_weaken.
@@ -1019,12 +1066,16 @@ Proof.
       - eapply (clean_ext X (mkM (os m1) (LInst :: held m1) (evs m1)) m2); [exact C1|exact X2].
       - rewrite (ext_held _ _ _ X2). cbn [held]. rewrite H1. reflexivity.
       - intros k Hk. rewrite Ho2 in *. cbn [os] in *. apply I1, Hk. }
-    intros a m' _ H. rewrite H, Ho2. reflexivity. }
-  intros oro m2 X2 Ho2.
+    intros a m' _ (H & Hr). split; [rewrite H, Ho2; reflexivity|].
+    intros ro E. destruct (Hr ro E) as [Ha|(id & t & Hl & Ht)]; [discriminate|].
+    rewrite Ho2 in Hl. cbn [os] in Hl. eauto. }
+  intros oro m2 X2 (Ho2 & Hro).
   assert (R2 : ready [] m2) by (eapply ready_ext; [|eassumption]; repeat split; assumption).
   destruct R2 as (C2 & H2 & I2).
   destruct oro as [ro|].
-  - eapply returns_weaken; [apply handle_send_tree_returns; [exact C2|rewrite H2; reflexivity|exact I2]|auto].
+  - eapply returns_weaken; [apply handle_send_tree_returns; [exact C2|rewrite H2; reflexivity|exact I2|]|auto].
+    intros tm' ro' E1 E2. inversion E1; subst tm'. inversion E2; subst ro'.
+    destruct (Hro ro eq_refl) as (id & t & Hl & <-). rewrite Ho1 in Hl. eapply Hb, Hl.
   - eapply bind_returns; [apply send_returns|]. intros ok m3 X3 _.
     assert (R3 : ready [] m3) by (eapply ready_ext; [|eassumption]; repeat split; assumption).
     destruct R3 as (C3 & H3 & I3).
@@ -1038,11 +1089,13 @@ Qed.
 (* checkPendingTreeMarshal with its early return repaired is a plain critical section *)
 Lemma check_pending_tm_returns : forall ro m,
   ready [] m ->
-  returns X (check_pending_tm all_fixed ro) m (fun _ _ => True).
+  (f08 fx = true \/ filter (fun tm => tm_roster tm =? ro_id ro) (ptm (os m)) <> []) ->
+  (forall tm, In tm (ptm (os m)) -> tm_roster tm = ro_id ro -> benign_mk fx tm ro) ->
+  returns X (check_pending_tm fx ro) m (fun _ _ => True).
 Proof.
-  intros ro m R. pose proof R as (C & Hh & Hi). unfold check_pending_tm.
-  set (F := fun tm => match make_tree all_fixed tm ro with
-                      | MTErr => ret tt | MTCrash c => panic c | MTOk t => store_peer_tree all_fixed t end).
+  intros ro m R H8 Hb. pose proof R as (C & Hh & Hi). unfold check_pending_tm.
+  set (F := fun tm => match make_tree fx tm ro with
+                      | MTErr => ret tt | MTCrash c => panic c | MTOk t => store_peer_tree fx t end).
   (* run the acquire by hand *)
   set (m0 := mkM (os m) [LPTree] (evs m)).
   assert (Ea : acquire LPTree m = Ret tt m0).
@@ -1055,10 +1108,13 @@ Proof.
   { eapply bind_returns; [apply access_returns; reflexivity|]. intros [] m1 X1 Ho1.
     eapply bind_returns; [apply get_returns|]. intros s m2 X2 (-> & ->).
     eapply returns_weaken.
-    { apply miter_returns with (P := fun m => clean m /\ held m = [LPTree] /\ insts_have (os m)).
+    { apply miter_returns_in with (P := fun m => clean m /\ held m = [LPTree] /\ insts_have (os m)).
       - eapply ready_ext; eassumption.
-      - intros tm m3 (C3 & H3 & I3). unfold F.
-        destruct (make_tree_fixed tm ro) as [Em|(c & _ & _ & Em)]; rewrite Em.
+      - intros tm m3 Hin (C3 & H3 & I3). unfold F.
+        assert (Bm : benign_mk fx tm ro).
+        { apply filter_In in Hin as [Hin Heq]. apply Nat.eqb_eq in Heq. apply Hb; [|exact Heq].
+          rewrite Ho1 in Hin. exact Hin. }
+        destruct (make_tree_benign tm ro Bm) as [Em|(c & _ & _ & Em)]; rewrite Em.
         + eapply returns_weaken; [apply ret_returns|]. intros a m' _ (_ & ->). repeat split; assumption.
         + eapply returns_weaken; [apply store_peer_tree_returns; [exact C3|rewrite H3; reflexivity|exact I3]|].
           intros a m' Hx _. eapply (ready_ext X [LPTree]); [|exact Hx]. repeat split; assumption. }
@@ -1070,8 +1126,10 @@ Proof.
     destruct (access TPTM m0) as [[] ma|] eqn:Eacc; [|discriminate].
     unfold get in *. 
     destruct (filter (fun tm => tm_roster tm =? ro_id ro) (ptm (os ma))) as [|tm0 rest] eqn:Ef.
-    + cbn [miter] in E1. unfold ret in E1. inversion E1; subst m1. cbn [f08 all_fixed].
-      unfold release. rewrite (ext_held _ _ _ X1). reflexivity.
+    + cbn [miter] in E1. unfold ret in E1. inversion E1; subst m1.
+      destruct H8 as [H8|H8].
+      2:{ exfalso. apply H8. unfold access in Eacc. inversion Eacc; subst ma. exact Ef. }
+      rewrite H8. unfold release. rewrite (ext_held _ _ _ X1). reflexivity.
     + fold F. rewrite E1. unfold release. rewrite (ext_held _ _ _ X1). reflexivity.
   - destruct X1 as [h l v k i d e]. constructor; cbn [os held evs] in *; auto.
 Qed.
@@ -1087,23 +1145,48 @@ Proof.
   auto.
 Qed.
 
+(* the input classes of the crash / leak defects, per operation and state; [True] for every
+   operation when the five repairs are in place *)
+Definition benign (s : ostate) (o : op) : Prop :=
+  match o with
+  | Recv p cfg nf m =>
+      if cfg then True else
+      match m with
+      | MProto from to b => b = BGarbage \/ (to = None -> f05 fx = true)
+      | MRespTree (Some tm) (Some ro) => benign_mk fx tm ro
+      | MTreeMarshal tm => forall id t, lookup id (store s) = Some (Have t) -> benign_mk fx tm (t_roster t)
+      | MReqRoster _ => f07 fx = true \/ existsb is_req (store s) = false
+      | MRoster ro =>
+          ro_id ro = 0 \/
+          ((f08 fx = true \/ filter (fun tm => tm_roster tm =? ro_id ro) (ptm s) <> []) /\
+           forall tm, In tm (ptm s) -> tm_roster tm = ro_id ro -> benign_mk fx tm ro)
+      | _ => True
+      end
+  | _ => True
+  end.
+
 (* Overlay.Process: every envelope *)
 Lemma process_returns : forall p cfg nf msg m,
-  ready [] m -> returns X (process all_fixed p cfg nf msg) m (fun _ _ => True).
+  ready [] m -> benign (os m) (Recv p cfg nf msg) ->
+  returns X (process fx p cfg nf msg) m (fun _ _ => True).
 Proof.
-  intros p cfg nf msg m R. pose proof R as (C & Hh & Hi). unfold process.
+  intros p cfg nf msg m R B. pose proof R as (C & Hh & Hi). unfold process. cbn [benign] in B.
   destruct cfg.
   { destruct msg; try (eapply returns_weaken; [apply ret_returns|auto]). apply handle_config_returns, R. }
   destruct msg as [from to b|id ver|tm ro|tm|rid|ro|d].
-  - destruct b; try (eapply returns_weaken; [apply transmit_returns; exact R|auto]).
-    eapply returns_weaken; [apply ret_returns|auto].
-  - eapply returns_weaken; [apply handle_request_tree_returns; [exact C|rewrite Hh; reflexivity]|auto].
-  - eapply returns_weaken; [apply handle_send_tree_returns; [exact C|rewrite Hh; reflexivity|exact Hi]|auto].
-  - apply handle_send_tree_marshal_returns, R.
-  - eapply returns_weaken; [apply handle_request_roster_returns; [exact C|rewrite Hh; reflexivity]|auto].
-  - unfold handle_send_roster. destruct (ro_id ro =? 0).
+  - destruct b.
+    + eapply returns_weaken; [apply transmit_returns; [exact R|]|auto]. destruct B as [B|B]; [discriminate|exact B].
+    + eapply returns_weaken; [apply transmit_returns; [exact R|]|auto]. destruct B as [B|B]; [discriminate|exact B].
     + eapply returns_weaken; [apply ret_returns|auto].
-    + apply check_pending_tm_returns, R.
+  - eapply returns_weaken; [apply handle_request_tree_returns; [exact C|rewrite Hh; reflexivity]|auto].
+  - eapply returns_weaken; [apply handle_send_tree_returns; [exact C|rewrite Hh; reflexivity|exact Hi|]|auto].
+    intros tm' ro' -> ->. exact B.
+  - apply handle_send_tree_marshal_returns; [exact R|exact B].
+  - eapply returns_weaken; [apply handle_request_roster_returns; [exact C|rewrite Hh; reflexivity|exact B]|auto].
+  - unfold handle_send_roster. destruct (ro_id ro =? 0) eqn:E0.
+    + eapply returns_weaken; [apply ret_returns|auto].
+    + destruct B as [B|(B1 & B2)]; [rewrite B in E0; discriminate|].
+      apply check_pending_tm_returns; assumption.
   - eapply returns_weaken; [apply ret_returns|auto].
 Qed.
 
@@ -1113,17 +1196,31 @@ End Fixed.
 Definition touches (o : op) : nat -> Prop :=
   match o with LocalTree t => fun id => id = t_id t | _ => noX end.
 
-Lemma run_op_returns : forall o m,
-  ready [] m -> returns (touches o) (run_op all_fixed o) m (fun _ _ => True).
+(* variants of the code that have the repairs F26, F71 and F72 *)
+Definition base_fixed (fx : fixes) : Prop := f26 fx = true /\ f71 fx = true /\ f72 fx = true.
+
+Lemma benign_all_fixed : forall s o, benign all_fixed s o.
 Proof.
-  intros o m R. pose proof R as (C & Hh & Hi). destruct o as [p cfg nf msg|t|k]; cbn [run_op touches].
-  - apply process_returns, R.
-  - apply register_tree_returns; [exact R|reflexivity].
+  intros s [p cfg nf m|t|k]; cbn [benign]; auto.
+  destruct cfg; [exact I|]. destruct m as [from to b|id ver|[tm|] [ro|]|tm|rid|ro|d]; cbn; auto.
+  - unfold benign_mk. cbn. auto.
+  - intros id t _. unfold benign_mk. cbn. auto.
+  - right. split; [auto|]. intros tm _ _. unfold benign_mk. cbn. auto.
+Qed.
+
+Lemma run_op_returns : forall fx o m,
+  base_fixed fx -> ready [] m -> benign fx (os m) o ->
+  returns (touches o) (run_op fx o) m (fun _ _ => True).
+Proof.
+  intros fx o m (H26 & H71 & H72) R B. pose proof R as (C & Hh & Hi).
+  destruct o as [p cfg nf msg|t|k]; cbn [run_op touches].
+  - apply process_returns; assumption.
+  - apply register_tree_returns; [exact H71|exact R|reflexivity].
   - apply locked_returns; [exact C|rewrite Hh; reflexivity|intros a m0 H _; exact I|].
     eapply returns_weaken; [apply node_delete_returns|auto]; [exact C|cbn [held]; rewrite Hh; reflexivity|reflexivity].
 Qed.
 
-(* ---- Part 3: steps and histories of the repaired model ------------------------------------ *)
+(* ---- Part 3: steps and histories ------------------------------------------------------------- *)
 
 Definition Inv (s : ostate) : Prop := leaked s = [] /\ insts_have s.
 
@@ -1140,18 +1237,40 @@ Proof.
 Qed.
 
 (* from a returning run of the operation to the step *)
-Lemma step_of_returns : forall s o (Q : unit -> mst -> Prop),
+Lemma step_of_returns : forall fx s o (Q : unit -> mst -> Prop),
   Inv s ->
-  returns (touches o) (run_op all_fixed o) (mkM s [] []) Q ->
-  exists m', step all_fixed s o = mkR (os m') (rev (evs m')) Ok /\
+  returns (touches o) (run_op fx o) (mkM s [] []) Q ->
+  exists m', step fx s o = mkR (os m') (rev (evs m')) Ok /\
              ext (touches o) (mkM s [] []) m' /\ Q tt m'.
 Proof.
-  intros s o Q (Hl & Hi) ([] & m' & E & Hx & Hq). exists m'. split; [|auto].
+  intros fx s o Q (Hl & Hi) ([] & m' & E & Hx & Hq). exists m'. split; [|auto].
   unfold step. rewrite E.
   rewrite (ext_held _ _ _ Hx). cbn [held].
   assert (L : leaked (os m') = []) by (rewrite (ext_leaked _ _ _ Hx); exact Hl).
   rewrite set_leaked_nil by exact L. reflexivity.
 Qed.
+
+(* one step of any variant with the repairs F26 F71 F72, outside the input classes of the
+   crash / leak defects it still has *)
+Theorem step_safe_gen : forall fx s o,
+  base_fixed fx -> Inv s -> benign fx s o ->
+  r_out (step fx s o) = Ok /\
+  Inv (r_state (step fx s o)) /\
+  disciplined (r_events (step fx s o)) = true /\
+  (forall id t, ~ touches o id -> lookup id (store s) = Some (Have t) ->
+                lookup id (store (r_state (step fx s o))) = Some (Have t)).
+Proof.
+  intros fx s o Hfx I B. pose proof I as (Hl & Hi).
+  destruct (step_of_returns fx s o (fun _ _ => True) I) as (m' & E & Hx & _).
+  { apply run_op_returns; [exact Hfx|repeat split; assumption|exact B]. }
+  rewrite E. cbn [r_out r_state r_events]. split; [reflexivity|]. split; [|split].
+  - split; [rewrite (ext_leaked _ _ _ Hx); exact Hl|apply (ext_insts _ _ _ Hx), Hi].
+  - unfold disciplined. rewrite forallb_rev. apply (ext_disc _ _ _ Hx). reflexivity.
+  - intros id t Hn Ht. apply (ext_keeps _ _ _ Hx); assumption.
+Qed.
+
+Lemma all_fixed_base : base_fixed all_fixed.
+Proof. repeat split. Qed.
 
 Theorem step_safe : forall s o,
   Inv s ->
@@ -1160,18 +1279,35 @@ Theorem step_safe : forall s o,
   disciplined (r_events (step all_fixed s o)) = true /\
   (forall id t, ~ touches o id -> lookup id (store s) = Some (Have t) ->
                 lookup id (store (r_state (step all_fixed s o))) = Some (Have t)).
-Proof.
-  intros s o I. pose proof I as (Hl & Hi).
-  destruct (step_of_returns s o (fun _ _ => True) I) as (m' & E & Hx & _).
-  { apply run_op_returns. repeat split; assumption. }
-  rewrite E. cbn [r_out r_state r_events]. split; [reflexivity|]. split; [|split].
-  - split; [rewrite (ext_leaked _ _ _ Hx); exact Hl|apply (ext_insts _ _ _ Hx), Hi].
-  - unfold disciplined. rewrite forallb_rev. apply (ext_disc _ _ _ Hx). reflexivity.
-  - intros id t Hn Ht. apply (ext_keeps _ _ _ Hx); assumption.
-Qed.
+Proof. intros s o I. apply step_safe_gen; [apply all_fixed_base|exact I|apply benign_all_fixed]. Qed.
 
 Lemma run_cons : forall fx s o ops, run fx s (o :: ops) = run fx (r_state (step fx s o)) ops.
 Proof. reflexivity. Qed.
+
+(* a history every operation of which is outside the defect classes, in the state it meets *)
+Fixpoint benign_hist (fx : fixes) (s : ostate) (ops : list op) : Prop :=
+  match ops with
+  | [] => True
+  | o :: r => benign fx s o /\ benign_hist fx (r_state (step fx s o)) r
+  end.
+
+Lemma benign_hist_all_fixed : forall ops s, benign_hist all_fixed s ops.
+Proof. induction ops as [|o r IH]; intros s; cbn; auto using benign_all_fixed. Qed.
+
+Theorem trace_safe_gen : forall fx ops s,
+  base_fixed fx -> Inv s -> benign_hist fx s ops ->
+  Forall (fun r => r_out r = Ok /\ leaked (r_state r) = [] /\ disciplined (r_events r) = true)
+         (trace fx s ops) /\
+  Inv (run fx s ops).
+Proof.
+  intros fx ops. induction ops as [|o r IH]; intros s Hfx I B; cbn [trace].
+  - split; [constructor|exact I].
+  - destruct B as (Bo & Br).
+    destruct (step_safe_gen fx s o Hfx I Bo) as (Ho & I' & D & _).
+    destruct (IH _ Hfx I' Br) as (F & I'').
+    split; [|rewrite run_cons; exact I''].
+    constructor; [|exact F]. split; [exact Ho|]. split; [apply I'|exact D].
+Qed.
 
 (* for every finite history of envelopes and local calls, from every state with no
    leaked mutex in which every listed instance has its tree: no step crashes or
@@ -1182,12 +1318,30 @@ Theorem trace_safe : forall ops s,
          (trace all_fixed s ops) /\
   Inv (run all_fixed s ops).
 Proof.
-  induction ops as [|o r IH]; intros s I; cbn [trace].
-  - split; [constructor|exact I].
-  - destruct (step_safe s o I) as (Ho & I' & D & _).
-    destruct (IH _ I') as (F & I'').
-    split; [|rewrite run_cons; exact I''].
-    constructor; [|exact F]. split; [exact Ho|]. split; [apply I'|exact D].
+  intros ops s I. apply trace_safe_gen; [apply all_fixed_base|exact I|apply benign_hist_all_fixed].
+Qed.
+
+(* the variant with F26 F71 F72 only: the five crash / leak defects are confined to their
+   input classes *)
+Definition crash_unfixed : fixes := mkFixes false false false false true false true true.
+
+Theorem crash_defects_confined : forall ops s,
+  Inv s -> benign_hist crash_unfixed s ops ->
+  Forall (fun r => r_out r = Ok /\ leaked (r_state r) = [] /\ disciplined (r_events r) = true)
+         (trace crash_unfixed s ops) /\
+  Inv (run crash_unfixed s ops).
+Proof. intros ops s. apply trace_safe_gen. repeat split. Qed.
+
+Example benign_hist_satisfiable :
+  benign_hist crash_unfixed init
+    [LocalTree (mkTree 1 (mkRo 1 [mkMem 1 true; mkMem 4 true; mkMem 2 true]) (TM 1 1 [TM 4 4 []; TM 2 2 []]));
+     Recv 1 false false (MProto (Some (mkTok 1 1 1 0 90 1)) (Some (mkTok 1 1 1 0 90 4)) BPing);
+     Recv 3 false false (MReqRoster 1);
+     Recv 3 false false (MRespTree (Some (mkTMar 2 1 [TM 1 1 []])) (Some (mkRo 1 [mkMem 1 true])))].
+Proof.
+  cbn [benign_hist benign]. repeat split; cbn; auto.
+  - right. discriminate.
+  - left. discriminate.
 Qed.
 
 (* a tree the server has is never changed by what peers send *)
